@@ -259,8 +259,41 @@ def _check_main(ctx, rep: Report):
         rep.violate(Violation("C16.SET", "C16.SET|get_methods_for_attribute", "get_methods_for_attribute no longer returns the scalar helpers plus the element family iff the attribute is a collection", f"{gm.module.relpath}:{gm.node.lineno}", "spec_class.get_methods_for_attribute"))
     gs = ctx.p.find_function("spec_class.get_methods_for_spec_class")
     src = ast.unparse(gs.node)
-    ok = all(k in src for k in ("'__spec_class_init__'", "'__spec_class_repr__'", "'__spec_class_eq__'")) and "name.startswith('__spec_class') or methods_filter.get(name, False)" in src \
-        and "TOPLEVEL_METHODS" in src
+    # the filter that decides which candidates are registered: keep iff backup-name or enabled (comprehension or loop form)
+    def _prefix_value(node):
+        if isinstance(node, ast.Constant):
+            return node.value
+        if isinstance(node, ast.Name):
+            r = ctx.p.resolve_global(gs.module, node.id)
+            if r and r[0] == "assign" and isinstance(r[1][1], ast.Constant):
+                return r[1][1].value
+        return None
+
+    def _classify_keep(n):
+        if isinstance(n, ast.Call) and isinstance(n.func, ast.Attribute) and n.func.attr == "startswith" and n.args and _prefix_value(n.args[0]) == "__spec_class":
+            return ("backup", True)
+        if isinstance(n, ast.Call) and isinstance(n.func, ast.Attribute) and n.func.attr == "get" and "methods_filter" in ast.unparse(n.func.value) \
+                and (len(n.args) < 2 or ast.unparse(n.args[1]) == "False"):
+            return ("enabled", True)
+        return None
+    cond = None
+    for n in walk_own(gs.node):
+        if isinstance(n, ast.DictComp) and n.generators and n.generators[0].ifs and "methods_filter" in ast.unparse(n):
+            ifs = n.generators[0].ifs
+            cond = ifs[0] if len(ifs) == 1 else ast.BoolOp(op=ast.And(), values=list(ifs))
+        if cond is None and isinstance(n, ast.For) and "methods_filter" in ast.unparse(n):
+            kname = ast.unparse(n.target.elts[0]) if isinstance(n.target, ast.Tuple) else ast.unparse(n.target)
+            rc = boolfn.reach_condition(n.body, lambda s, kname=kname: isinstance(s, ast.Assign) and isinstance(s.targets[0], ast.Subscript)
+                                        and ast.unparse(s.targets[0].slice) == kname)
+            if rc is not None and rc is not True:
+                cond = rc
+    keep_ok = False
+    if cond is not None:
+        try:
+            keep_ok = boolfn.table(cond, _classify_keep, ["backup", "enabled"]) == {(b_, e_): b_ or e_ for b_ in (False, True) for e_ in (False, True)}
+        except ValueError:
+            keep_ok = False
+    ok = all(k in src for k in ("'__spec_class_init__'", "'__spec_class_repr__'", "'__spec_class_eq__'")) and keep_ok and "TOPLEVEL_METHODS" in src
     rep.oblige("C16.SET", "get_methods_for_spec_class", ok)
     if not ok:
         rep.violate(Violation("C16.SET", "C16.SET|get_methods_for_spec_class", "the generated constructor/repr/equality are no longer always reachable under their __spec_class_* names (or the top-level helpers are missing)", f"{gs.module.relpath}:{gs.node.lineno}", "spec_class.get_methods_for_spec_class"))
